@@ -22,7 +22,7 @@ pub fn slice(gt: &GameTime, white: bool) -> Result<u128, String> {
 }
 
 /// Upper bounds written from the property's statement only.
-fn check_point(wtime: i128, btime: i128, winc: i128, binc: i128, mtg: Option<u32>, acc: &mut Acc, rng: &mut Rng) {
+pub fn check_point(wtime: i128, btime: i128, winc: i128, binc: i128, mtg: Option<u32>, acc: &mut Acc, rng: &mut Rng) {
     for white in [true, false] {
         acc.evaluations += 1;
         let gt = GameTime { wtime, btime, winc, binc, movestogo: mtg };
@@ -76,7 +76,7 @@ fn check_point(wtime: i128, btime: i128, winc: i128, binc: i128, mtg: Option<u32
     }
 }
 
-fn log_uniform(rng: &mut Rng) -> i128 {
+pub fn log_uniform(rng: &mut Rng) -> i128 {
     let bits = rng.below(100);
     let mag: i128 = if bits == 0 { 0 } else { (rng.next() as i128) >> (64 - bits.min(63)) };
     let mag = if bits > 63 { mag << (bits - 63) } else { mag };
@@ -88,7 +88,7 @@ fn log_uniform(rng: &mut Rng) -> i128 {
 }
 
 /// Parser: tokens in any order with unknown tokens interleaved must yield the fields written.
-fn check_parse(rng: &mut Rng, acc: &mut Acc) {
+pub fn check_parse(rng: &mut Rng, acc: &mut Acc) {
     acc.evaluations += 1;
     let mut fields: Vec<(&str, i128)> = Vec::new();
     let mut names = vec!["wtime", "btime", "winc", "binc", "movestogo"];
